@@ -365,14 +365,147 @@ func nominalLen(v Value) (int, bool) {
 		return 0, false
 	}
 	switch ob.T.Ctor {
-	case "pubuncomp":
+	case "pubuncomp", "pubuncompT":
 		return 65, true
 	case "pubraw":
 		return 33, true
+	case "pubx", "puby", "pubyT":
+		return 32, true
 	case "privraw":
 		return 32, true
 	case "cidbytes":
 		return 36, true
 	}
 	return 0, false
+}
+
+// ---- the little structure public key encodings have -----------------------------------------------
+//
+// pubuncomp(k) = 04 ‖ X(k) ‖ Y(k),  pubraw(k) = (02 | parity(Y(k))) ‖ X(k).  X(k) and Y(k) are opaque 32-byte
+// chunks (pubx, puby); the last byte of Y(k) is the 8-bit unknown ylast_k, so that its parity is a symbolic bit.
+// pubuncompT(k, n) is pubuncomp(k) with Y replaced by a different value of the same parity (not a curve point).
+// Only the accesses code that converts between the encodings performs are modelled: the first byte, the last
+// byte, and the coordinate halves; anything else stays "inside an opaque byte string" (inconclusive).
+
+func (in *Interp) yLast(k int) *smt.Term { return in.Ctx.Var(fmt.Sprintf("ylast_k%d", k), 8) }
+
+func (in *Interp) parityPrefix(k int) *smt.Term {
+	c := in.Ctx
+	return c.Bin(smt.OpOr, c.BV(2, 8), c.Bin(smt.OpAnd, in.yLast(k), c.BV(1, 8)))
+}
+
+func chunkTerm(v Value) *OTerm {
+	t, ok := opaqueOfBytes(v)
+	if !ok || len(t.Args) == 0 {
+		return nil
+	}
+	if _, ok := t.Args[0].(int); !ok {
+		return nil
+	}
+	return t
+}
+
+// chunkByte: byte i of a key encoding kept as one chunk, where the model knows it.
+func (in *Interp) chunkByte(v Value, i int64) (Value, bool) {
+	t := chunkTerm(v)
+	if t == nil {
+		return Value{}, false
+	}
+	k := t.Args[0].(int)
+	switch t.Ctor {
+	case "pubuncomp", "pubuncompT":
+		switch i {
+		case 0:
+			return mkInt(4, 8), true
+		case 64:
+			return mkSymInt(in.yLast(k)), true
+		}
+	case "pubraw":
+		if i == 0 {
+			return mkSymInt(in.parityPrefix(k)), true
+		}
+	case "puby", "pubyT":
+		if i == 31 {
+			return mkSymInt(in.yLast(k)), true
+		}
+	}
+	return Value{}, false
+}
+
+// chunkSlice: the coordinate halves of a key encoding.
+func chunkSlice(v Value, lo, hi int64) (Value, bool) {
+	t := chunkTerm(v)
+	if t == nil {
+		return Value{}, false
+	}
+	k := t.Args[0].(int)
+	switch t.Ctor {
+	case "pubuncomp", "pubuncompT":
+		switch {
+		case lo == 1 && hi == 33:
+			return opqBytes(ot("pubx", k)), true
+		case lo == 33 && hi == 65 && t.Ctor == "pubuncomp":
+			return opqBytes(ot("puby", k)), true
+		case lo == 33 && hi == 65:
+			return opqBytes(ot("pubyT", k, t.Args[1])), true
+		}
+	case "pubraw":
+		if lo == 1 && hi == 33 {
+			return opqBytes(ot("pubx", k)), true
+		}
+	}
+	return Value{}, false
+}
+
+// keyFromParts recognises a key encoding assembled from its parts: [prefix byte][X(k)] and [04][X(k)][Y(k)].
+// A compressed encoding whose prefix has the other parity denotes the negated point: a different, valid key.
+func (in *Interp) keyFromParts(v Value) (*keySt, bool) {
+	if v.K != KSlice || v.R == nil {
+		return nil, false
+	}
+	s := v.R.(*SliceV).S
+	part := func(x Value, ctor string) (int, bool) {
+		if x.K != KOpaque {
+			return 0, false
+		}
+		ob, ok := x.R.(*OpaqueBytes)
+		if !ok || ob.T == nil || ob.T.Ctor != ctor {
+			return 0, false
+		}
+		return ob.T.Args[0].(int), true
+	}
+	c := in.Ctx
+	switch len(s) {
+	case 2:
+		k, ok := part(s[1], "pubx")
+		if !ok || s[0].K == KOpaque {
+			return nil, false
+		}
+		b := s[0].Term(c)
+		if in.Branch(c.Cmp(smt.OpEq, b, in.parityPrefix(k)), "key prefix") {
+			return &keySt{id: k}, true
+		}
+		other := c.Bin(smt.OpXor, in.parityPrefix(k), c.BV(1, 8))
+		if in.Branch(c.Cmp(smt.OpEq, b, other), "key prefix (negated point)") {
+			if in.negKeys == nil {
+				in.negKeys = map[int]int{}
+			}
+			if _, ok := in.negKeys[k]; !ok {
+				in.keyCount++
+				in.negKeys[k] = in.keyCount
+			}
+			return &keySt{id: in.negKeys[k]}, true
+		}
+		return nil, false
+	case 3:
+		k, ok := part(s[1], "pubx")
+		k2, ok2 := part(s[2], "puby")
+		if !ok || !ok2 || k != k2 || s[0].K == KOpaque {
+			return nil, false
+		}
+		if in.Branch(c.Cmp(smt.OpEq, s[0].Term(c), c.BV(4, 8)), "key prefix") {
+			return &keySt{id: k}, true
+		}
+	}
+	return nil, false
 }
